@@ -50,9 +50,21 @@ void *mem_pool_allocate(mem_pool_t *mem)
 	VERIF_ASSERT(mem != NULL, C19_OB("env.mem_pool_allocate.pre"));
 	if (mem->n >= C19_POOL_MAX)
 		return NULL;
-	p = c19_calloc(1, mem->obj_size);
+	if (mem->obj_size == C19_POOL_OBJ_SIZE)
+		p = c19_calloc(1, C19_POOL_OBJ_SIZE);
+	else {
+		VERIF_ASSERT(0, C19_OB("env.mem_pool_obj_size"));
+		return NULL;
+	}
 	if (p != NULL)
 		mem->objs[mem->n++] = p;
 	return p;
+}
+
+/* harness helper: hand an object built by the harness to the pool (it then
+ * lives and dies with the pool like an allocated one) */
+static void c19_pool_adopt(mem_pool_t *mem, void *p)
+{
+	mem->objs[mem->n++] = p;
 }
 #endif
